@@ -7,6 +7,9 @@
 #include <cstdio>
 #include <cstdlib>
 #include <cstring>
+#include <unistd.h>
+#include <sys/types.h>
+#include <sys/wait.h>
 #include <string>
 #include <sstream>
 #include <vector>
@@ -61,8 +64,13 @@ namespace cif {
 
 // ---- the registered error handler -----------------------------------------------------------------
 CIF_VAR(std::vector<int> seen, )    // codes passed to the handler since the last clear
+CIF_VAR(std::string kinds, )        // for time-outs, which handler ran: W = "PPL timeout expired", D = "PPL deterministic timeout expired"
 #ifndef CIF_SECONDARY_TU
-extern "C" void handler(enum ppl_enum_error_code c, const char*) { seen.push_back((int) c); }
+extern "C" void handler(enum ppl_enum_error_code c, const char* d) {
+  seen.push_back((int) c);
+  if (c == PPL_TIMEOUT_EXCEPTION && d != 0 && kinds.size() < 12)
+    kinds.push_back(std::strstr(d, "deterministic") != 0 ? 'D' : std::strstr(d, "timeout expired") != 0 ? 'W' : '?');
+}
 #else
 extern "C" void handler(enum ppl_enum_error_code c, const char*);
 #endif
@@ -321,6 +329,44 @@ template <class T> void refine_recipe(T& t, int k, unsigned dim, int n) {
     t.refine_with_constraint(e >= 0);
   }
 }
+// grids ignore inequalities: their recipes are congruences (and one equality)
+inline void refine_recipe(Grid& t, int k, unsigned dim, int n) {
+  for (int i = 0; i < n; ++i) {
+    std::vector<long> co; long in; le_coeffs(k * 5 + i, dim, co, in);
+    Linear_Expression e; e.set_space_dimension(dim);
+    for (unsigned j = 0; j < dim; ++j) if (co[j] != 0) e += Coefficient(co[j]) * Variable(j);
+    e += Coefficient(in);
+    if (i == 1 && k % 3 == 0) t.refine_with_constraint(e == 0);
+    else t.refine_with_congruence((e %= 0) / Coefficient(2 + (k + i) % 3 * 2));
+  }
+}
+// state modifiers of a recipe (r / 16): 1 = built from a REDUNDANT description (every constraint again, weakened and
+// scaled: non-minimal, pending rows); 2 = brought to minimal form first, then one redundant constraint added (pending)
+template <class T> void redundant_recipe(T& t, int k, unsigned dim, int n, bool only_one) {
+  for (int i = 0; i < (only_one ? 1 : n); ++i) {
+    std::vector<long> co; long in; le_coeffs(k * 5 + i, dim, co, in);
+    Linear_Expression e; e.set_space_dimension(dim);
+    for (unsigned j = 0; j < dim; ++j) if (co[j] != 0) e += Coefficient(co[j]) * Variable(j);
+    e += Coefficient(in + 6);
+    t.refine_with_constraint(e + 7 >= 0);
+    if (!only_one) t.refine_with_constraint(2 * e + 3 >= 0);
+  }
+}
+inline void redundant_recipe(Grid& t, int k, unsigned dim, int n, bool only_one) {
+  for (int i = 0; i < (only_one ? 1 : n); ++i) {
+    std::vector<long> co; long in; le_coeffs(k * 5 + i, dim, co, in);
+    Linear_Expression e; e.set_space_dimension(dim);
+    for (unsigned j = 0; j < dim; ++j) if (co[j] != 0) e += Coefficient(co[j]) * Variable(j);
+    e += Coefficient(in);
+    if (!(i == 1 && k % 3 == 0)) t.refine_with_congruence((e %= 0) / Coefficient(1 + (k + i) % 3));   // implied: modulus divides
+    if (!only_one) t.refine_with_congruence((2 * e %= 0) / Coefficient(2));
+  }
+}
+template <class T> void apply_modifier(T& t, int r, int k, unsigned dim, int n) {
+  int mod = r / 16;
+  if (mod == 1) redundant_recipe(t, k, dim, n, false);
+  else if (mod == 2) { (void) t.is_empty(); (void) t.is_bounded(); redundant_recipe(t, k, dim, n, true); }
+}
 // recipe -> (dimension, emptiness, number of constraints)
 inline unsigned recipe_dim(int r) { return (r % 8 == 5) ? 3u : (r % 8 == 6) ? 0u : 2u; }
 
@@ -347,6 +393,15 @@ inline void emit(const char* kind, const char* entry, const std::string& variant
   ++cases;
 }
 
+inline int forked_ok(std::function<int()> f) {
+  std::fflush(stdout);
+  pid_t pid = fork();
+  if (pid == 0) { int r = 0; try { r = f(); } catch (...) { r = 0; } _exit(r > 0 ? 0 : 1); }
+  if (pid < 0) return f();
+  int st = 0; waitpid(pid, &st, 0);
+  return (WIFEXITED(st) && WEXITSTATUS(st) == 0) ? 1 : 0;
+}
+
 // self-object case: `ccall(h)` calls the entry point on the handle, `mir(twin)` the C++ operation.
 // mutates: whether the handle type of self is non-const.  extra: additional output comparison (after both ran).
 template <class Dom>
@@ -367,12 +422,18 @@ void run_self_once(const char* entry, const std::string& variant, const typename
       disarm();
       in_oom = false;
       bool f = fired;
-      int ok = Dom::cok(s.h);
-      std::string after = s.dump();
+      // after an injected failure the C++ object may be inconsistent (exception safety of the wrapped operation is not
+      // claimed by C20): its invariant check is run in a forked child, so that a crash inside OK() is just "not OK"
+      int ok = f ? forked_ok([&] { return Dom::cok(s.h); }) : Dom::cok(s.h);
+      int usable = 0, cst = 1;
+      if (ok > 0) {
+        std::string after = s.dump();
+        usable = (after != "<dump failed>") ? 1 : 0;
+        std::unique_ptr<T> ref(Dom::clone(proto));
+        cst = !mutates ? (s.t() == *ref) : 1;
+      }
       // model outcome: BadAlloc thrown iff an allocation was attempted
-      int usable = (ok > 0 && after != "<dump failed>") ? 1 : 0;
-      std::unique_ptr<T> ref(Dom::clone(proto));
-      emit("O", entry, variant, f ? "BadAlloc" : "noalloc", 0, r, -1, (!mutates ? (s.t() == *ref) : 1), usable, 1, 0, "");
+      emit("O", entry, variant, f ? "BadAlloc" : "noalloc", 0, r, -1, cst, usable, 1, 0, "");
     }
     if (live != base) if (!quiet) std::printf("L|%s|%s|oom pass leaked %ld blocks\n", entry, variant.c_str(), live - base);
   }
@@ -396,7 +457,9 @@ void run_self_once(const char* entry, const std::string& variant, const typename
     if (extra && m == "ret" && r >= 0) extra_ok = extra() ? 1 : 0;
     std::string after = s.dump();
     std::string tw = xdump(*twin);
-    dump_eq = (after == tw || s.t() == *twin) ? 1 : 0;
+    // EXACT contents (same rows, same order, same flags): handle and twin went through the same operation from equal
+    // states; only empty objects may differ (unspecified bounds of an empty box)
+    dump_eq = (after == tw || (s.t().is_empty() && twin->is_empty())) ? 1 : 0;
     if (!dump_eq) note = "handle: " + after.substr(0, 120) + " // twin: " + tw.substr(0, 120);
     // const handle: the VALUE must be unchanged (the representation may legitimately be minimized lazily)
     const_ok = ((mutates || s.t() == *ref) && (!w || w->same())) ? 1 : 0;
